@@ -668,6 +668,17 @@ class Model:
     def comprehension(self, ex, e, st, kind):
         """Comprehensions are over-approximated: the iterables are evaluated (for their exceptions), the result is an
         unconstrained fresh container.  Nothing about its contents can be proved from this."""
+        if kind == "list" and len(e.generators) == 1:
+            g = e.generators[0]
+            it = ex.ev(g.iter, st)
+            if it.ty is TUPLE:
+                items = []
+                for item in it.py:
+                    s2 = st.fork()
+                    ex.assign(g.target, item, s2)
+                    cond = z3.And([ex.ev_truth(c, s2) for c in g.ifs] or [z3.BoolVal(True)])
+                    items.append((cond, ex.ev(e.elt, s2)))
+                return pyv(("filtered", tuple(items)))
         for g in e.generators:
             ex.ev(g.iter, st)
         o = V(fresh(kind + "comp", Ref), ObjT("Opaque"))
@@ -849,6 +860,8 @@ def _b_len(model, ex, args, kwargs, st, node):
     (v,) = args
     if v.ty is TUPLE:
         return const(len(v.py))
+    if v.ty is PY and isinstance(v.py, tuple) and v.py and v.py[0] == "filtered":
+        return V(z3.Sum([z3.If(c, 1, 0) for c, _ in v.py[1]]) if v.py[1] else z3.IntVal(0), INT)
     if v.ty is STR:
         return V(z3.Length(v.term), INT)
     if isinstance(v.ty, SeqT):
